@@ -283,6 +283,8 @@ enum Op {
     Realloc(u32, usize),
     Free(u32),
     VerifyAll,
+    /// 4100 x { malloc 300, malloc 24, free the first (a tree-sized chunk that cannot merge), free the second }
+    Pump,
 }
 
 struct Hist {
@@ -292,8 +294,11 @@ struct Hist {
 
 fn gen_hist(dec: &mut Dec, max_ops: usize) -> Hist {
     let n = 1 + dec.choose(K::Op, max_ops as u32) as usize;
-    let profile = dec.choose(K::Cfg, 7);
+    let profile = dec.choose(K::Cfg, 8);
     let big_budget = 12usize;
+    // one history in 24 contains the pump: enough frees of tree-sized chunks to make free() itself
+    // look for releasable segments (a counter of 4095 such frees)
+    let pump_at = if dec.chance(K::Cfg, 1, 24) { Some(dec.choose(K::Cfg, n as u32) as usize) } else { None };
     let mut bigs = 0;
     let mut ops = Vec::with_capacity(n);
     for _ in 0..n {
@@ -312,6 +317,10 @@ fn gen_hist(dec: &mut Dec, max_ops: usize) -> Hist {
             _ => Op::VerifyAll,
         };
         ops.push(op);
+        if pump_at == Some(ops.len() - 1) {
+            ops.push(Op::Pump);
+            ops.push(Op::VerifyAll);
+        }
     }
     let faults_stop_at = if dec.chance(K::Cfg, 1, 2) { dec.choose(K::Cfg, n as u32 + 1) as usize } else { n };
     Hist { ops, faults_stop_at }
@@ -448,6 +457,24 @@ fn exec_op(a: &mut Dlmalloc, k: &MemKern, op: Op, owner: usize, seedc: &mut u8, 
             unsafe { a.free(b.addr as *mut u8) };
             stats.frees += 1;
             k.viol.borrow().is_none()
+        }
+        Op::Pump => {
+            for _ in 0..4100 {
+                let p = unsafe { a.malloc(300, 8) };
+                let q = unsafe { a.malloc(24, 8) };
+                if !p.is_null() {
+                    unsafe { a.free(p) };
+                }
+                if !q.is_null() {
+                    unsafe { a.free(q) };
+                }
+                if k.viol.borrow().is_some() {
+                    return false;
+                }
+            }
+            stats.allocs += 8200;
+            stats.frees += 8200;
+            true
         }
         Op::VerifyAll => {
             let blocks: Vec<Block> = k.live.borrow().iter().copied().filter(|b| b.owner == owner).collect();
